@@ -20,6 +20,14 @@ STRENGTH = {
     'C13_m3': 'gradf that returns its argument / a view / an incrementally maintained caller-owned buffer',
     'C14_m4': 'first run: configured-data correspondence only (no concrete input); dominant-l2 stream (lamda >> ||A||^2, default steps) so the optimum oracle exhibits one',
     'C15_m2': 'PowerMethod on genuinely 2-D operands',
+    'C01_m3': 'systematic grid combinator x operand kind (fresh / input itself / view / non-contiguous view / complex scalar / fft) x storage dtype; flattening stacks get non-contiguous block outputs',
+    'C01_m4': 'Interpolate / Gridding leaf stream over the C07 parameter space (3-D grids, coordinates on window ties)',
+    'C02_m3': 'whiten / get_cov on 2-D and single-coil data (the internal reshape is then a view in every layout), non-trivial covariance',
+    'C02_m4': 'real-dtype inputs also on trees with fft-like leaves (single-precision tolerance) + fft operand in the systematic grid',
+    'C04_m3': 'non-default oversamp / width for NUFFT(toeplitz=True) with a per-case bound 8 e_A + 3e-5 measured against the exact non-uniform Gram matrix (the fixed 5e-2 was both too loose and, at width 3, too tight)',
+    'C09_m3': 'closed-form oracle re-run on complex128 / complex64 / float32 / float64 element values',
+    'C17_m4': 'crop ties: each run repeated with crop set exactly to one of its eigenvalues',
+    'C20_m3': 'spoke locations on a 1/fov grid (increments of equal magnitude and opposite sign, diagonal return to 0)',
     'C16_m2': 'non-binary weights + byte snapshots of the caller arrays of SenseRecon',
     'C16_m3': 'L1WaveletRecon with ADMM and rho != 1 compared with an independent minimiser',
     'C16_m4': 'non-Cartesian SenseRecon with some samples exactly zero',
